@@ -202,6 +202,10 @@ def replay_input(cex, path, file_path=None):
     L.append("patterns " + " ".join(str(a[4]) for a in cex["args"]))
     sched = list(cex["schedule"])
     steps = cex["steps"][: len(sched)]
+    # `unmount` is a step of the model but not an access the hook announces
+    keep = [i for i, s_ in enumerate(steps) if not s_["desc"].startswith("unmount")]
+    steps = [steps[i] for i in keep]
+    sched = [sched[i] for i in keep]
     if cex["what"] == "crash":
         # only the set-up and the victim are forced; the survivor runs on the reopened file afterwards
         sv = len(cex["progs"]) - 1
